@@ -21,6 +21,15 @@ Definition miss_path (s : sk) : bool :=
   | _ => false
   end.
 
+(* the hit path: the entry is loaded (its use recorded, its three parts read together) as the FIRST
+   step under the read lock, exactly once, before that lock is given up *)
+Definition hit_path (s : sk) : bool :=
+  match s with
+  | KSeq (KCall 40 :: KIf (KSeq (KCall 38 :: rest)) (KSeq []) :: _) =>
+      negb (existsb (N.eqb 38) (calls (KSeq rest))) && existsb (N.eqb 41) (calls (KSeq rest))
+  | _ => false
+  end.
+
 (* createAndCacheLOCKED: `if entry != nil { entry.load ...; return }` comes first; only then the
    index is read (checked) and inserted *)
 Definition recheck_first (s : sk) : bool :=
@@ -33,6 +42,7 @@ Definition recheck_first (s : sk) : bool :=
 
 Lemma tie_cache_double_check :
   miss_path sk_vectorIndexCache_loadFromCache = true /\
+  hit_path sk_vectorIndexCache_loadFromCache = true /\
   recheck_first sk_vectorIndexCache_createAndCacheLOCKED = true.
 Proof. tvm. Qed.
 Print Assumptions tie_cache_double_check.
